@@ -419,6 +419,17 @@ def _struct(repo, col):
                         meth = fnv.args[1].name
                 ok = meth == name and a.op == "param" and b.pretty() == "self.tf_dict"
                 detail = f"leaf function applies `{meth}` to ({p0}, {p1}); trees {a.short(30)}, {b.short(30)}"
+        # a transform looked up by parameter NAME in a table flattened over all entries: entries that share a name (the same
+        # parameter made trainable for two groups, with different bounds) collapse into one, an entry then meets another entry's transform
+        if r is not None and not ok and not shape:
+            by_name = T.find(r, lambda x: x.op == "sub" and x.args[0].op == "dictcomp" and
+                             T.find(x.args[0], lambda y: y.op == "attr" and y.name == "tf_dict") is not None and
+                             T.find(x.args[0], lambda y: y.op == "mcall" and y.name == "items") is not None)
+            if by_name is not None:
+                shape = True
+                detail = (f"the transform is looked up by parameter name in a table built over ALL entries (`{by_name.short(70)}`): two entries "
+                          f"with the same name (one parameter, two groups with different bounds) collapse, the earlier one is transformed with the "
+                          f"later one's transform")
         col.add(R, fi, f"ParamTransform.{name}", "DISCHARGED" if ok else ("VIOLATED" if shape else "UNDECIDED"),
                 f"tree_map(lambda x, tf: tf.{name}(x), params, self.tf_dict): each transform meets exactly its own entry"
                 if ok else f"ParamTransform.{name}: {detail}", node=fi.node)
